@@ -118,10 +118,32 @@ fn item(rng: &mut Rng, sc: &mut Scene, depth: usize) -> (X, Option<B>) {
             2 => {}
             _ => { attrs.push(("x", f(dx))); attrs.push(("y", f(dy))); mx = dx; my = dy; }
         }
+        let mut bx = [tb[0] + mx, tb[1] + my, tb[2] + mx, tb[3] + my];
+        // a transform on the <use> itself applies to the instance, outside the x / y shift
+        if rng.chance(1, 3) {
+            if rng.chance(1, 2) {
+                let (tx, ty) = (rng.range(-30, 30) as f64 / 2.0, rng.range(-30, 30) as f64 / 2.0);
+                attrs.push(("transform", format!("translate({} {})", f(tx), f(ty))));
+                bx = [bx[0] + tx, bx[1] + ty, bx[2] + tx, bx[3] + ty];
+            } else {
+                let (sx, sy) = (*rng.pick(&[2.0, 0.5, -1.0, 1.5]), *rng.pick(&[1.0, 2.0, -1.0]));
+                attrs.push(("transform", format!("scale({} {})", f(sx), f(sy))));
+                let (a, c) = (bx[0] * sx, bx[2] * sx); let (d, e) = (bx[1] * sy, bx[3] * sy);
+                bx = [a.min(c), d.min(e), a.max(c), d.max(e)];
+            }
+        }
         let av: Vec<(&str, &str)> = attrs.iter().map(|(k, v)| (*k, v.as_str())).collect();
-        return (X::leaf("use", &av), Some([tb[0] + mx, tb[1] + my, tb[2] + mx, tb[3] + my]));
+        return (X::leaf("use", &av), Some(bx));
     }
-    let (n, b) = item_inner(rng, sc, depth);
+    let (mut n, mut b) = item_inner(rng, sc, depth);
+    // a clip path on a plain shape (not one that will serve as a <use> target)
+    if let (X::El { name, attrs, kids: None }, Some(bx), Some((cid, cb))) = (&mut n, b, sc.clip_id.clone()) {
+        if matches!(name.as_str(), "circle" | "ellipse") && rng.chance(1, 3) {
+            attrs.push(("clip-path".into(), format!("url(#{cid})")));
+            let r = [bx[0].max(cb[0]), bx[1].max(cb[1]), bx[2].min(cb[2]), bx[3].min(cb[3])];
+            b = if r[2] - r[0] >= 0.0 && r[3] - r[1] >= 0.0 { Some(r) } else { None };
+        }
+    }
     if let (X::El { name, attrs, kids: None }, Some(bx)) = (&n, b) {
         if matches!(name.as_str(), "rect" | "line" | "polyline" | "polygon" | "path") && !attrs.iter().any(|(k, _)| k == "text") {
             if let Some((_, id)) = attrs.iter().find(|(k, _)| k == "id") {
@@ -144,9 +166,21 @@ fn gen_case(rng: &mut Rng) -> Case {
     let mut sc = Scene { nodes: vec![], extent: None, clip_id: None, n: 0, targets: vec![] };
     if rng.chance(1, 3) {
         let (x, y, w, h) = (rng.range(-20, 20) as f64, rng.range(-20, 20) as f64, 2.0 * rng.range(3, 20) as f64, 2.0 * rng.range(3, 20) as f64);
-        let cp = X::node("defs", &[], vec![X::node("clipPath", &[("id", "clip")], vec![X::leaf("rect", &[("x", &f(x)), ("y", &f(y)), ("width", &f(w)), ("height", &f(h))])])]);
-        sc.nodes.push(cp);
-        sc.clip_id = Some(("clip".into(), [x, y, x + w, y + h]));
+        let inner = X::leaf("rect", &[("x", &f(x)), ("y", &f(y)), ("width", &f(w)), ("height", &f(h))]);
+        if rng.chance(1, 2) {
+            // a clip path that is itself clipped by a second one (written before or after it): the region
+            // is the intersection; the second one always covers the centre of the first
+            let (cx, cy) = (x + w / 2.0, y + h / 2.0);
+            let (w2, h2) = (2.0 * rng.range(2, 12) as f64, 2.0 * rng.range(2, 12) as f64);
+            let (x2, y2) = (cx - rng.range(1, (w2 as i64) - 1) as f64, cy - rng.range(1, (h2 as i64) - 1) as f64);
+            let c1 = X::node("clipPath", &[("id", "clip"), ("clip-path", "url(#clip2)")], vec![inner]);
+            let c2 = X::node("clipPath", &[("id", "clip2")], vec![X::leaf("rect", &[("x", &f(x2)), ("y", &f(y2)), ("width", &f(w2)), ("height", &f(h2))])]);
+            sc.nodes.push(X::node("defs", &[], if rng.chance(1, 2) { vec![c1, c2] } else { vec![c2, c1] }));
+            sc.clip_id = Some(("clip".into(), [x.max(x2), y.max(y2), (x + w).min(x2 + w2), (y + h).min(y2 + h2)]));
+        } else {
+            sc.nodes.push(X::node("defs", &[], vec![X::node("clipPath", &[("id", "clip")], vec![inner])]));
+            sc.clip_id = Some(("clip".into(), [x, y, x + w, y + h]));
+        }
     }
     let k = 1 + rng.below(6);
     for _ in 0..k {
